@@ -370,7 +370,7 @@ def show_components(cs):
 
 
 def show_adj(g):
-    return ';'.join(f'{n}:' + ','.join(map(str, sorted(ms))) for n, ms in g.items())
+    return ';'.join(f'{n}:' + ','.join(map(str, sorted(ms))) for n, ms in sorted(g.items()))
 
 
 def impl_fields(mol):
@@ -390,14 +390,16 @@ def impl_fields(mol):
         return f, None, 'lib:ImplementationError'
     except Exception as e:  # crash inside the heuristic
         return f, None, 'crash:' + type(e).__name__
-    f['ar'] = ';'.join(f'{n}:' + '/'.join(canon_ring(r) for r in rs) for n, rs in mol.atoms_rings.items())
-    f['ars'] = ';'.join(f'{n}:' + ','.join(map(str, sorted(s))) for n, s in mol.atoms_rings_sizes.items())
+    # dict key order and the order of the rings inside a per-atom list are not part of the property: sorted
+    f['ar'] = ';'.join(f'{n}:' + '/'.join(canon_ring(r) for r in sorted(tuple(r) for r in rs))
+                       for n, rs in sorted(mol.atoms_rings.items()))
+    f['ars'] = ';'.join(f'{n}:' + ','.join(map(str, sorted(s))) for n, s in sorted(mol.atoms_rings_sizes.items()))
     mol.calc_labels()
     marks = []
-    for n, ms in mol._bonds.items():
+    for n, ms in sorted(mol._bonds.items()):
         a = mol._atoms[n]
         marks.append(f'{n}:{int(bool(a._in_ring))}:' + ','.join(map(str, sorted(a._ring_sizes))) + ':' +
-                     ','.join(f'{m}={int(bool(b._in_ring))}' for m, b in ms.items()))
+                     ','.join(f'{m}={int(bool(b._in_ring))}' for m, b in sorted(ms.items())))
     f['marks'] = ';'.join(marks)
     return f, rings, None
 
@@ -685,7 +687,7 @@ def correspond(ctx):
     ctx.exhaustive = True   # this stream enumerates its finite domain completely (see RULE for the other streams)
 
     # 2. isomorphism classes of 7 atoms (<= 5 rings) and 8 atoms (<= 3 rings) under random renumbering
-    reps = 2 if ctx.quick else 12
+    reps = 2 if ctx.quick else 40
     for n, mx in ((7, 5), (8, 3)):
         for edges in iso_classes(n, mx):
             ints = graph_ints(n, edges)
